@@ -150,6 +150,32 @@ theorem flt_quiet (bx : Bool) (x : Req × Ans) (t : List (Req × Ans)) (hr : loo
   cases a <;> simp_all [quietX, hookRaise]
   cases r <;> simp_all [loopRx, loopR, swallowedReq, isAttemptHook]
 
+/-- what the last invocation of the operation raised -/
+def lastOpExn : List (Req × Ans) → Option Exn
+  | [] => none
+  | (.op _, .raise e _) :: _ => some e
+  | (.op _, _) :: _ => none
+  | _ :: t => lastOpExn t
+
+theorem lastOpExn_nonop (x : Req × Ans) (t : List (Req × Ans)) (h : isOp x.1 = false) :
+    lastOpExn (x :: t) = lastOpExn t := by
+  obtain ⟨r, a⟩ := x
+  cases r <;> simp_all [lastOpExn, isOp]
+
+theorem raisedBy_of_lastOpExn (t : List (Req × Ans)) (e : Exn) (h : lastOpExn t = some e) :
+    raisedBy isOp t e = true := by
+  induction t with
+  | nil => simp [lastOpExn] at h
+  | cons x t ih =>
+    obtain ⟨r, a⟩ := x
+    cases r with
+    | op k =>
+      cases a <;> simp_all [lastOpExn, raisedBy, isOp]
+    | _ =>
+      rw [lastOpExn_nonop _ _ (by simp [isOp])] at h
+      have := ih h
+      simp_all [raisedBy]
+
 /-- what the C03 argument looks at -/
 structure View where
   mon : St
@@ -160,6 +186,7 @@ structure View where
   counts : EClass → Nat
   unknown : Nat
   noExc : Bool                    -- `last_exc is None`
+  opExn : Option Exn              -- what the last invocation of the operation raised
 
 def stopOkOf (cfg : Cfg) (m : St) (el : Nat) : Option StopReason → Bool
   | none => true
@@ -168,7 +195,7 @@ def stopOkOf (cfg : Cfg) (m : St) (el : Nat) : Option StopReason → Bool
 def view (cfg : Cfg) (w : World) : View :=
   ⟨cur cfg w.trace, flt w.trace, decide (w.now = w.rs.start + (clk w.trace).el), w.rs.lastStop,
    stopOkOf cfg (cur cfg w.trace) (clk w.trace).el w.rs.lastStop,
-   w.rs.perClassCounts, w.rs.unknownAttempts, w.rs.lastExc.isNone⟩
+   w.rs.perClassCounts, w.rs.unknownAttempts, w.rs.lastExc.isNone, lastOpExn w.trace⟩
 
 theorem stopCond_mono (cfg : Cfg) (m : St) {el el' : Nat} (h : el ≤ el') (r : StopReason)
     (hc : stopCond cfg m el r = true) : stopCond cfg m el' r = true := by
@@ -184,17 +211,20 @@ theorem stopOkOf_mono (cfg : Cfg) (m : St) {el el' : Nat} (h : el ≤ el') (r : 
 /-- quiet inert exchanges: the monitor, the fault flag and the slack do not move -/
 theorem cur_append_quiet (cfg : Cfg) (bx : Bool) (δ t : List (Req × Ans)) (h : QuietAll (loopRx bx) δ)
     (hx : bx = true → (cur cfg t).refused = true) :
-    cur cfg (δ ++ t) = cur cfg t ∧ flt (δ ++ t) = flt t ∧ (clk (δ ++ t)).el = (clk t).el + dsum δ := by
+    cur cfg (δ ++ t) = cur cfg t ∧ flt (δ ++ t) = flt t ∧ (clk (δ ++ t)).el = (clk t).el + dsum δ ∧
+      lastOpExn (δ ++ t) = lastOpExn t := by
   induction δ with
   | nil => simp [dsum]
   | cons x δ ih =>
     have hx' := h x (by simp)
     have := ih (fun y hy => h y (by simp [hy]))
-    refine ⟨?_, ?_, ?_⟩
+    refine ⟨?_, ?_, ?_, ?_⟩
+    rotate_right
+    · rw [List.cons_append, lastOpExn_nonop _ _ (loopR_not_op bx _ hx'.1), this.2.2.2]
     · simp only [List.cons_append, cur_cons, this.1]
       exact step_inert cfg bx _ x _ hx'.1 hx'.2 hx
     · rw [List.cons_append, flt_quiet bx _ _ hx'.1 hx'.2, this.2.1]
-    · simp only [List.cons_append, clk_cons, tick_el _ _ (loopR_not_prelude bx _ hx'.1), this.2.2, dsum]
+    · simp only [List.cons_append, clk_cons, tick_el _ _ (loopR_not_prelude bx _ hx'.1), this.2.2.1, dsum]
       omega
 
 theorem view_fq (cfg : Cfg) (bx : Bool) (w w' : World) (h : FootQ (loopRx bx) w w')
@@ -205,7 +235,7 @@ theorem view_fq (cfg : Cfg) (bx : Bool) (w w' : World) (h : FootQ (loopRx bx) w 
   have hrs := h.rs
   have hmono := stopOkOf_mono cfg (cur cfg w.trace) (Nat.le_add_right (clk w.trace).el (dsum δ)) w.rs.lastStop
     (by simpa [view] using hok)
-  simp only [view, e, hc.1, hc.2.1, hc.2.2, hrs, t, View.mk.injEq, true_and, and_true]
+  simp only [view, e, hc.1, hc.2.1, hc.2.2.1, hc.2.2.2, hrs, t, View.mk.injEq, true_and, and_true]
   refine ⟨by simp only [decide_eq_decide]; omega, ?_⟩
   simp_all [view]
 
@@ -405,6 +435,18 @@ theorem exc_plain (cfg : Cfg) {w' : World} {e : Exn} (hne : ∀ f, e ≠ .libExh
     fun h => ⟨hgr h, Or.inr (Or.inr fun f h => absurd h (hne f))⟩⟩
   rcases hg with h | h | h <;> simp_all
 
+/-- the library itself raises `e` (not a report of exhaustion) -/
+theorem exc_made (cfg : Cfg) {w' : World} {e : Exn} (hne : ∀ f, e ≠ .libExhausted f)
+    (hb : (cur cfg w'.trace).bad = false) (hm : flt w'.trace = false → (cur cfg w'.trace).mustOp = false)
+    (hgr : GrantInv cfg (cur cfg w'.trace))
+    (hg : e.isException = false ∨ e.isAbort = true ∨ e.isExhausted = true ∨
+          (e = .libValueError ∧ (cur cfg w'.trace).sawOther = true)) :
+    Exc cfg e w' := by
+  intro hf
+  refine ⟨hb, hm hf, fun f h => absurd h (hne f), fun _ _ h1 h2 h3 => ?_,
+    fun h => ⟨hgr h, Or.inr (Or.inr fun f h => absurd h (hne f))⟩⟩
+  rcases hg with h | h | h | h <;> simp_all
+
 /-! #### phases of an attempt (predicates on the view) -/
 
 /-- inside attempt `n`: the operation has been called, the run has not stopped, no backoff yet -/
@@ -462,10 +504,10 @@ def isFailure : StopReason → Bool
   | _ => true
 
 /-- the failure handler has decided to stop with reason `r` -/
-def Stopped (n : Nat) (r : StopReason) (v : View) : Prop :=
+def Stopped (cfg : Cfg) (n : Nat) (r : StopReason) (v : View) : Prop :=
   v.mon.ops = n ∧ 1 ≤ n ∧ v.mon.bad = false ∧ v.flt = false ∧ v.mon.mustOp = false ∧ v.mon.done = false ∧
-  v.stop = some r ∧ v.stopOk = true ∧ v.mon.classified = true ∧ isFailure r = true ∧
-  (v.mon.granted = true → v.mon.slept = true)
+  v.stop = some r ∧ v.stopOk = true ∧ v.mon.classified = true ∧ GrantInv cfg v.mon ∧
+  (v.mon.granted = true → v.mon.slept = true ∨ v.mon.decision.isSome = true)
 
 @[simp] theorem dur_unit (d : Nat) : (Ans.unit d).dur = d := rfl
 @[simp] theorem dur_bool (b : Bool) (d : Nat) : (Ans.bool b d).dur = d := rfl
@@ -492,6 +534,19 @@ def Succ (n : Nat) (v : View) : Prop :=
   v.mon.ops = n ∧ 1 ≤ n ∧ v.mon.bad = false ∧ v.flt = false ∧ v.mon.mustOp = false ∧ v.mon.done = true ∧
   v.stop = none ∧ v.stopOk = true ∧ v.mon.granted = false
 
+/-- the retry has been granted and reported, the abort predicate polled: ready to back off -/
+def Ready (cfg : Cfg) (n : Nat) (v : View) : Prop :=
+  v.mon.ops = n ∧ 1 ≤ n ∧ n < cfg.maxAttempts ∧ v.mon.bad = false ∧ v.flt = false ∧ v.sync = true ∧
+  v.stop = none ∧ v.stopOk = true ∧ v.mon.mustOp = false ∧ v.mon.slept = false ∧ v.mon.done = false ∧
+  v.mon.strat = true ∧ v.mon.granted = cfg.budget.isSome ∧ v.mon.refused = false ∧
+  v.mon.retryEv = cfg.metric ∧ v.mon.pollFalse = cfg.abortIf ∧ v.mon.classified = true ∧ CntOK v
+
+/-- the backoff sleep has been requested -/
+def Slept (cfg : Cfg) (n : Nat) (v : View) : Prop :=
+  v.mon.ops = n ∧ 1 ≤ n ∧ n < cfg.maxAttempts ∧ v.mon.bad = false ∧ v.flt = false ∧ v.sync = true ∧
+  v.stop = none ∧ v.stopOk = true ∧ v.mon.slept = true ∧ v.mon.done = false ∧
+  v.mon.granted = cfg.budget.isSome ∧ v.mon.retryEv = cfg.metric ∧ v.mon.classified = true ∧ CntOK v
+
 /-- the failure handler is about to stop the run -/
 def PreStop (n : Nat) (v : View) : Prop :=
   v.mon.ops = n ∧ 1 ≤ n ∧ v.mon.bad = false ∧ v.flt = false ∧ v.mon.mustOp = false ∧ v.mon.done = false ∧
@@ -501,8 +556,7 @@ def PreStop (n : Nat) (v : View) : Prop :=
 syntax "c03_simp" : tactic
 macro_rules | `(tactic| c03_simp) => `(tactic|
   simp_all +zetaDelta [GrantInv, Core, NoStrat, CntOK, Rel, ClsA, ClsB, ClsC, bumpCount, view, cur_cons, clk_cons, flt_cons, hookRaise, Clock.tick,
-    isPrelude, step, classify, abortKind, abortRaise, isAttemptHook, stopOkOf, raisedBy, isOp,
-    Exn.isException, Exn.isAbort, Exn.isExhausted, Ans.dur])
+    isPrelude, step, classify, abortKind, abortRaise, isAttemptHook, stopOkOf, raisedBy, isOp, lastOpExn])
 
 macro "c03_close" : tactic => `(tactic| all_goals (
   (try subst_vars) <;> (try c03_simp) <;> (try (and_intros <;> (try simp_all [Ans.dur]) <;> omega))))
@@ -521,13 +575,15 @@ macro "c03_close" : tactic => `(tactic| all_goals (
 /-- what the failure handler leaves behind -/
 def Decided (cfg : Cfg) (n : Nat) (d : Decision) (v : View) : Prop :=
   match d with
-  | .raise => ∃ r, Stopped n r v
+  | .raise => match v.stop with
+    | some r => Stopped cfg n r v ∧ isFailure r = true
+    | none => False
   | .retry _ _ => Gr cfg n v ∧ CntOK v ∧ v.mon.retryEv = cfg.metric ∧ v.mon.classified = true
 
 /-- unfold the phase predicates, keep the view folded -/
 syntax "c03_phase" : tactic
 macro_rules | `(tactic| c03_phase) => `(tactic|
-  simp_all +zetaDelta [Decided, GrantInv, PreStop, plainEv, isBreakerEv, Strat, Gr, Refd, Stopped, isFailure, Succ,
+  simp_all +zetaDelta [Ready, Slept, Decided, GrantInv, PreStop, plainEv, isBreakerEv, Strat, Gr, Refd, Stopped, isFailure, Succ,
     Core, NoStrat, CntOK, Rel, ClsA, ClsB, ClsC, stopCond])
 
 /-- chaining goals: first with the phases folded, then unfolded -/
@@ -549,6 +605,7 @@ theorem invokeOp_spec (cfg : Cfg) (n : Nat) (u : View) (hr : Rel cfg n u) (hn : 
           fun e w => ⌜Core cfg (n + 1) (view cfg w) ∧ NoStrat (view cfg w) ∧ CntOK (view cfg w) ∧
                       (view cfg w).mon.classified = false ∧ (view cfg w).mon.done = false ∧
                       (e.isException = true → raisedBy isOp w.trace e = true) ∧
+                      (e.isException = true → (view cfg w).opExn = some e) ∧
                       (e.isAbort = true → (view cfg w).mon.sawAbort = true)⌝⟩⦄ := by
   simp only [Rel] at hr
   mvcgen [invokeOp, ask]
@@ -591,7 +648,7 @@ theorem callClassifier_spec (cfg : Cfg) (n : Nat) (u : View) (hc : Core cfg n u)
 macro_rules | `(tactic| c03_simp) => `(tactic|
   simp_all +zetaDelta [GrantInv, Succ, Core, NoStrat, CntOK, Rel, ClsA, ClsB, ClsC, bumpCount, view, cur_cons, clk_cons,
     flt_cons, hookRaise, Clock.tick, isPrelude, step, classify, abortKind, abortRaise, isAttemptHook, stopOkOf,
-    raisedBy, isOp])
+    raisedBy, isOp, lastOpExn])
 
 theorem shouldClassifyResult_spec (cfg : Cfg) (n : Nat) (u : View) (hc : Core cfg n u) (hn : NoStrat u)
     (hk : CntOK u) (hcl : u.mon.classified = false) (hd : u.mon.done = !cfg.resultClassifier) (x : Nat) :
@@ -610,9 +667,9 @@ def pollV (cfg : Cfg) (u : View) : View :=
   if cfg.abortIf then { u with mon := { u.mon with pollFalse := u.mon.pollFalse || u.mon.strat } } else u
 
 macro_rules | `(tactic| c03_simp) => `(tactic|
-  simp_all +zetaDelta [Decided, PreStop, plainEv, isBreakerEv, GrantInv, Strat, Gr, Refd, Stopped, isFailure, pollV, stopCond, Succ, Core, NoStrat, CntOK, Rel, ClsA, ClsB, ClsC, bumpCount, view, cur_cons,
+  simp_all +zetaDelta [Ready, Slept, Decided, PreStop, plainEv, isBreakerEv, GrantInv, Strat, Gr, Refd, Stopped, isFailure, pollV, stopCond, Succ, Core, NoStrat, CntOK, Rel, ClsA, ClsB, ClsC, bumpCount, view, cur_cons,
     clk_cons, flt_cons, hookRaise, Clock.tick, isPrelude, step, classify, abortKind, abortRaise, isAttemptHook,
-    stopOkOf, raisedBy, isOp])
+    stopOkOf, raisedBy, isOp, lastOpExn])
 
 /-- `check_abort`: a poll that answers False changes nothing but `pollFalse`; True ends the run -/
 theorem checkAbort_spec (cfg : Cfg) (tl : Bool) (u : View) (hs : u.stop = none) (hb : u.mon.bad = false)
@@ -665,7 +722,7 @@ theorem stopWith_spec (cfg : Cfg) (tl : Bool) (n : Nat) (u : View) (r : StopReas
     (hcond : ∀ el, stopCond cfg u.mon el r = true)
     (a : Nat) (k : EClass) (exc : Option Exn) (cause : Cause) :
     ⦃fun w => ⌜view cfg w = u⌝⦄ stopWith cfg tl r ev a k exc cause
-    ⦃post⟨fun d w => ⌜d = .raise ∧ Stopped n r (view cfg w)⌝, fun e w => ⌜Exc cfg e w⌝⟩⦄ := by
+    ⦃post⟨fun d w => ⌜d = .raise ∧ Stopped cfg n r (view cfg w)⌝, fun e w => ⌜Exc cfg e w⌝⟩⦄ := by
   have he := fun v hok hb hg hm hev =>
     emit_v cfg tl v hok hb hg hm ev hev a 0 (some k) exc (some r) (some cause) none
   simp only [PreStop] at hp
@@ -703,5 +760,328 @@ theorem handleFailure2_spec (cfg : Cfg) (tl : Bool) (n : Nat) (u : View) (c : Cl
   all_goals (clear he h1 h2)
   c03_chain
   c03_done
+
+theorem overUnknown_mono (cfg : Cfg) (m : St) (x : Nat) (h : Retry.overUnknown cfg x = true)
+    (hx : x ≤ m.classCount .unknown) : C03.overUnknown cfg m = true := by
+  unfold Retry.overUnknown at h
+  unfold C03.overUnknown
+  cases hm : cfg.maxUnknown <;> simp [hm] at h ⊢
+  omega
+
+theorem overClass_of (cfg : Cfg) (m : St) (f : EClass → Nat) (k : EClass) (h : overPerClass cfg f k = true)
+    (hx : f k = m.classCount k) : overClass cfg m k = true := by
+  unfold overPerClass at h
+  unfold overClass
+  cases hm : cfg.perClass k <;> simp [hm] at h ⊢
+  omega
+
+theorem handleUnknown_spec (cfg : Cfg) (tl : Bool) (n : Nat) (u : View) (c : Classification)
+    (hc : Core cfg n u) (hn : NoStrat u) (hk : ClsB c.klass u) (hu : c.klass = .unknown)
+    (hd : u.mon.done = false) (cause : Cause) (e : Option Exn) :
+    ⦃fun w => ⌜view cfg w = u⌝⦄ handleUnknown cfg tl c n cause e
+    ⦃post⟨fun d w => ⌜Decided cfg n d (view cfg w)⌝, fun e w => ⌜Exc cfg e w⌝⟩⦄ := by
+  have h1 := fun u hp hev hcond => stopWith_spec cfg tl n u .maxUnknownAttempts .maxUnknownAttemptsExceeded hp rfl
+    hev hcond n c.klass e cause
+  have h2 := fun u hc hn hk hd => handleFailure2_spec cfg tl n u c hc hn hk hd cause e
+  mvcgen [handleUnknown, getRS, modifyRS, h1, h2]
+  all_goals (clear h1 h2)
+  c03_chain
+  c03_done
+  exact overUnknown_mono _ _ _ (by assumption) hk.2.2.2
+
+theorem handleFailure1_spec (cfg : Cfg) (tl : Bool) (n : Nat) (u : View) (c : Classification)
+    (hc : Core cfg n u) (hn : NoStrat u) (hk : ClsB c.klass u) (hd : u.mon.done = false)
+    (cause : Cause) (e : Option Exn) :
+    ⦃fun w => ⌜view cfg w = u⌝⦄ handleFailure1 cfg tl c n cause e
+    ⦃post⟨fun d w => ⌜Decided cfg n d (view cfg w)⌝, fun e w => ⌜Exc cfg e w⌝⟩⦄ := by
+  have h1 := fun u r ev hp hf hev hcond => stopWith_spec cfg tl n u r ev hp hf hev hcond n c.klass e cause
+  have h2 := fun u hc hn hk hd => handleFailure2_spec cfg tl n u c hc hn hk hd cause e
+  have h3 := fun u hc hn hk hu hd => handleUnknown_spec cfg tl n u c hc hn hk hu hd cause e
+  mvcgen [handleFailure1, getRS, h1, h2, h3]
+  all_goals (clear h1 h2 h3)
+  c03_chain
+  c03_done
+  exact overClass_of _ _ _ _ (by assumption) (hk.2.2.1 _)
+
+
+theorem handleFailure_spec (cfg : Cfg) (tl : Bool) (n : Nat) (u : View) (c : Classification)
+    (hc : Core cfg n u) (hn : NoStrat u) (hk : ClsA c.klass u) (hd : u.mon.done = false)
+    (cause : Cause) (e : Option Exn) (r : Option Nat) :
+    ⦃fun w => ⌜view cfg w = u⌝⦄ handleFailure cfg tl c n cause e r
+    ⦃post⟨fun d w => ⌜Decided cfg n d (view cfg w)⌝, fun e w => ⌜Exc cfg e w⌝⟩⦄ := by
+  have h1 := fun u hc hn hk hd => handleFailure1_spec cfg tl n u c hc hn hk hd cause e
+  mvcgen [handleFailure, Retry.recordFailure, modifyRS, h1]
+  all_goals (clear h1)
+  c03_chain
+  c03_done
+  have h := hk.2.2.2
+  rw [hk.2.2.1 EClass.unknown] at h
+  exact h
+
+theorem handleException_spec (cfg : Cfg) (tl : Bool) (n : Nat) (u : View) (hc : Core cfg n u) (hn : NoStrat u)
+    (hk : CntOK u) (hcl : u.mon.classified = false) (hd : u.mon.done = false) (e : Exn) :
+    ⦃fun w => ⌜view cfg w = u⌝⦄ handleException cfg tl e n
+    ⦃post⟨fun d w => ⌜Decided cfg n d (view cfg w)⌝, fun e w => ⌜Exc cfg e w⌝⟩⦄ := by
+  have h1 := fun u hc hn hk hcl hd => callClassifier_spec cfg n u hc hn hk hcl hd e
+  have h2 := fun u c hc hn hk hd => handleFailure_spec cfg tl n u c hc hn hk hd .exception (some e) none
+  mvcgen [handleException, h1, h2]
+  all_goals (clear h1 h2)
+  c03_chain
+  c03_done
+
+/-- the sleep handler is asked -/
+theorem callSleepHandler_spec (cfg : Cfg) (n : Nat) (u : View) (hr : Ready cfg n u) (hdn : u.mon.decision = none)
+    (lvl : Lvl) (ctx : BackoffCtx) (s : Nat) :
+    ⦃fun w => ⌜view cfg w = u⌝⦄ callSleepHandler lvl ctx s
+    ⦃post⟨fun d w => ⌜Ready cfg n (view cfg w) ∧ (view cfg w).mon.decision = some d ∧
+                      (d = .abort → (view cfg w).mon.sawAbort = true) ∧
+                      (d = .defer → (view cfg w).mon.sawDefer = true) ∧
+                      (d = .other → (view cfg w).mon.sawOther = true)⌝,
+          fun e w => ⌜Exc cfg e w⌝⟩⦄ := by
+  simp only [Ready, CntOK] at hr
+  mvcgen [callSleepHandler, ask]
+  c03_done
+
+/-- the sleeper is asked: permitted; and if it returns, the monitor expects another attempt exactly when the
+    loop will make one -/
+theorem callSleeper_spec (cfg : Cfg) (n : Nat) (u : View) (hr : Ready cfg n u)
+    (hdn : u.mon.decision = if cfg.handler.isSome then some .sleep else none) (s : Nat) :
+    ⦃fun w => ⌜view cfg w = u⌝⦄ callSleeper cfg s
+    ⦃post⟨fun _ w => ⌜Slept cfg n (view cfg w) ∧
+                      (view cfg w).mon.mustOp = decide (w.now - w.rs.start ≤ cfg.deadline)⌝,
+          fun e w => ⌜Exc cfg e w⌝⟩⦄ := by
+  simp only [Ready, CntOK] at hr
+  mvcgen [callSleeper, ask]
+  c03_done
+
+/-- `aborted` is recorded and reported once -/
+theorem emitAbortedOnce_spec (cfg : Cfg) (tl : Bool) (u : View) (hsa : u.mon.sawAbort = true)
+    (hok : u.stopOk = true) (hb : u.mon.bad = false) (hg : GrantInv cfg u.mon) (hm : u.mon.mustOp = false)
+    (a : Nat) :
+    ⦃fun w => ⌜view cfg w = u⌝⦄ emitAbortedOnce cfg tl a
+    ⦃post⟨fun _ w => ⌜view cfg w = { u with stop := some .aborted, stopOk := true }⌝,
+          fun e w => ⌜Exc cfg e w⌝⟩⦄ := by
+  have he := fun v hok hb hg hm => emit_v cfg tl v hok hb hg hm .aborted (by simp [plainEv, isBreakerEv]) a 0
+    none none (some .aborted) none none
+  mvcgen [emitAbortedOnce, getRS, setStop, modifyRS, he]
+  all_goals (clear he)
+  c03_chain
+  c03_done
+  all_goals (trace_state; sorry)
+
+theorem handleSleepDecision_spec (cfg : Cfg) (tl : Bool) (n : Nat) (u : View) (act : SleepDecision)
+    (hr : Ready cfg n u) (hdn : u.mon.decision = some act)
+    (h1 : act = .abort → u.mon.sawAbort = true) (h2 : act = .defer → u.mon.sawDefer = true)
+    (h3 : act = .other → u.mon.sawOther = true) (s : Nat) :
+    ⦃fun w => ⌜view cfg w = u⌝⦄ handleSleepDecision cfg tl act n s
+    ⦃post⟨fun r w => ⌜r = act ∧ (act = .sleep → view cfg w = u) ∧
+                      (act = .defer → Stopped cfg n .scheduled (view cfg w)) ∧
+                      (act = .abort → Stopped cfg n .aborted (view cfg w)) ∧ act ≠ .other⌝,
+          fun e w => ⌜Exc cfg e w⌝⟩⦄ := by
+  have he := fun v hok hb hg hm cl ex cs => emit_v cfg tl v hok hb hg hm .scheduled
+    (by simp [plainEv, isBreakerEv]) n s cl ex (some .scheduled) cs none
+  have ha := fun u hsa hok hb hg hm => emitAbortedOnce_spec cfg tl u hsa hok hb hg hm n
+  simp only [Ready, CntOK] at hr
+  cases act <;> mvcgen [handleSleepDecision, getRS, setStop, modifyRS, he, ha]
+  all_goals (clear he ha)
+  case other =>
+    subst_vars
+    refine exc_made cfg (by simp) ?_ ?_ ?_ (Or.inr (Or.inr (Or.inr ⟨rfl, ?_⟩))) <;> c03_simp
+  c03_chain
+  c03_done
+
+
+/-- the failure handler's decision, after the poll that follows a grant -/
+def Decided2 (cfg : Cfg) (n : Nat) (d : Decision) (v : View) : Prop :=
+  match d with
+  | .raise => Decided cfg n .raise v
+  | .retry _ _ => Ready cfg n v ∧ v.mon.decision = none
+
+/-- what `_sync_failure_outcome` leaves behind, by attempt decision -/
+def Fin (cfg : Cfg) (n : Nat) (o : AOutcome) (v : View) : Prop :=
+  match o.decision with
+  | .retry => Slept cfg n v
+  | .success => False
+  | _ => match v.stop with
+    | some r => Stopped cfg n r v ∧ o.stop = some r ∧ (o.decision = .raise → isFailure r = true) ∧
+                (o.decision = .scheduled → r = .scheduled) ∧ (o.decision = .aborted → r = .aborted)
+    | none => False
+
+macro_rules | `(tactic| c03_simp) => `(tactic|
+  simp_all +zetaDelta [Fin, Decided2, Ready, Slept, Decided, PreStop, plainEv, isBreakerEv, GrantInv, Strat, Gr, Refd,
+    Stopped, isFailure, pollV, stopCond, Succ, Core, NoStrat, CntOK, Rel, ClsA, ClsB, ClsC, bumpCount, view,
+    cur_cons, clk_cons, flt_cons, hookRaise, Clock.tick, isPrelude, step, classify, abortKind, abortRaise,
+    isAttemptHook, stopOkOf, raisedBy, isOp, lastOpExn])
+
+macro_rules | `(tactic| c03_phase) => `(tactic|
+  simp_all +zetaDelta [Fin, Decided2, Ready, Slept, Decided, GrantInv, PreStop, plainEv, isBreakerEv, Strat, Gr, Refd,
+    Stopped, isFailure, Succ, Core, NoStrat, CntOK, Rel, ClsA, ClsB, ClsC, stopCond, pollV])
+
+/-- after the grant, a poll that answers False makes the attempt ready to back off -/
+theorem decided2_of_poll (cfg : Cfg) (n : Nat) (s : Nat) (c : BackoffCtx) (v : View)
+    (h : Decided cfg n (.retry s c) v) : Decided2 cfg n (.retry s c) (pollV cfg v) := by
+  simp only [Decided, Decided2, Gr, Core, Ready, CntOK, pollV] at *
+  split <;> simp_all
+
+/-- what the backoff leaves behind, by the handler's decision -/
+def AfterSleep (cfg : Cfg) (n : Nat) (r : SleepDecision) (w : World) : Prop :=
+  (r = .sleep → Slept cfg n (view cfg w) ∧
+                (view cfg w).mon.mustOp = decide (w.now - w.rs.start ≤ cfg.deadline)) ∧
+  (r = .defer → Stopped cfg n .scheduled (view cfg w)) ∧
+  (r = .abort → Stopped cfg n .aborted (view cfg w)) ∧ r ≠ .other
+
+/-- `_sync_sleep_action` -/
+theorem sleepAction_spec (cfg : Cfg) (tl : Bool) (n : Nat) (u : View) (hr : Ready cfg n u)
+    (hdn : u.mon.decision = none) (s : Nat) (ctx : BackoffCtx) :
+    ⦃fun w => ⌜view cfg w = u⌝⦄ sleepAction cfg tl n s ctx
+    ⦃post⟨fun r w => ⌜AfterSleep cfg n r w⌝, fun e w => ⌜Exc cfg e w⌝⟩⦄ := by
+  have h1 := fun u hr hdn lvl ctx s => callSleepHandler_spec cfg n u hr hdn lvl ctx s
+  have h2 := fun u act hr hdn a1 a2 a3 s => handleSleepDecision_spec cfg tl n u act hr hdn a1 a2 a3 s
+  have h3 := fun v hok hb hg hm ctx s => callBeforeSleep_v cfg v hok hb hg hm ctx s
+  have h4 := fun u hr hdn s => callSleeper_spec cfg n u hr hdn s
+  mvcgen [sleepAction, h1, h2, h3, h4]
+  all_goals (clear h1 h2 h3 h4)
+  all_goals (try simp only [AfterSleep])
+  c03_chain
+  exact ⟨fun _ => by assumption, by simp, by simp, by simp⟩
+
+/-- `_sync_failure_outcome`: back off (if the decision is "retry") and finalise the attempt -/
+theorem failureOutcome_spec (cfg : Cfg) (tl : Bool) (n : Nat) (u : View) (d : Decision)
+    (hd : Decided2 cfg n d u) (cls : Option Classification) (e : Option Exn) (r : Option Nat)
+    (c : Option Cause) :
+    ⦃fun w => ⌜view cfg w = u⌝⦄ failureOutcome cfg tl n d cls e r c
+    ⦃post⟨fun o w => ⌜Fin cfg n o (view cfg w)⌝, fun e w => ⌜Exc cfg e w⌝⟩⦄ := by
+  cases d with
+  | raise =>
+    mvcgen [failureOutcome, finalizeAttempt, getRS]
+    subst_vars
+    simp only [Decided2, Decided] at hd
+    have hst : ∀ w : World, w.rs.lastStop = (view cfg w).stop := fun _ => rfl
+    simp +zetaDelta only [Fin, hst]
+    split at hd <;> simp_all
+  | retry s ctx =>
+    have he := fun v hok hb hg hm ev hev k st =>
+      emit_v cfg tl v hok hb hg hm ev hev n 0 k e st c none
+    have h1 := fun u hr hdn => sleepAction_spec cfg tl n u hr hdn s ctx
+    simp only [Decided2] at hd
+    mvcgen [failureOutcome, finalizeAttempt, getRS, elapsed, setStop, modifyRS, he, h1]
+    all_goals (clear he h1)
+    all_goals (try simp only [AfterSleep] at *)
+    c03_chain
+    all_goals (cases ‹SleepDecision›)
+    c03_chain
+    c03_done
+
+theorem anyStop_of (cfg : Cfg) (m : St) (el : Nat) (r : StopReason) (h : stopCond cfg m el r = true)
+    (hf : isFailure r = true) : anyStop cfg m el = true := by
+  cases r <;> simp_all [anyStop, isFailure]
+
+theorem stopCond_of_view (cfg : Cfg) (w : World) (r : StopReason) (hs : (view cfg w).stop = some r)
+    (hok : (view cfg w).stopOk = true) : stopCond cfg (cur cfg w.trace) (clk w.trace).el r = true := by
+  have hs' : w.rs.lastStop = some r := hs
+  simpa [view, stopOkOf, hs'] using hok
+
+/-- the library reports exhaustion with the recorded stop reason -/
+theorem exc_lib_exhausted (cfg : Cfg) {w : World} {n : Nat} {r : StopReason} (f : ExhaustedFields)
+    (hS : Stopped cfg n r (view cfg w)) (hf : f.stop = r) : Exc cfg (.libExhausted f) w := by
+  have hc := stopCond_of_view cfg w r hS.2.2.2.2.2.2.1 hS.2.2.2.2.2.2.2.1
+  simp only [Stopped, GrantInv, view_mon] at hS
+  intro _
+  refine ⟨hS.2.2.1, hS.2.2.2.2.1, fun f' h => ?_, fun _ _ _ _ h => by simp at h, fun hg => ⟨hS.2.2.2.2.2.2.2.2.2.1 hg, ?_⟩⟩
+  · cases h; exact Or.inr (hf ▸ hc)
+  · rcases hS.2.2.2.2.2.2.2.2.2.2 hg with h | h
+    · exact Or.inl h
+    · exact Or.inr (Or.inl h)
+
+/-- the run was aborted -/
+theorem exc_lib_abort (cfg : Cfg) {w : World} {n : Nat} {r : StopReason}
+    (hS : Stopped cfg n r (view cfg w)) : Exc cfg .libAbort w := by
+  simp only [Stopped, view_mon] at hS
+  exact exc_made cfg (by simp) hS.2.2.1 (fun _ => hS.2.2.2.2.1) hS.2.2.2.2.2.2.2.2.2.1 (Or.inr (Or.inl rfl))
+
+/-- `call()` re-raises the operation's exception: the failure was classified and a stop condition holds -/
+theorem exc_reraise (cfg : Cfg) {w : World} {n : Nat} {r : StopReason} {e : Exn}
+    (hS : Stopped cfg n r (view cfg w)) (hfail : isFailure r = true) (hrb : raisedBy isOp w.trace e = true)
+    (hex : e.isExhausted = false) : Exc cfg e w := by
+  have hc := stopCond_of_view cfg w r hS.2.2.2.2.2.2.1 hS.2.2.2.2.2.2.2.1
+  simp only [Stopped, GrantInv, view_mon] at hS
+  intro _
+  refine ⟨hS.2.2.1, hS.2.2.2.2.1, fun f h => ?_, fun _ _ _ _ _ => Or.inr (Or.inr ⟨hrb, hS.2.2.2.2.2.2.2.2.1, anyStop_of cfg _ _ r hc hfail⟩),
+    fun hg => ⟨hS.2.2.2.2.2.2.2.2.2.1 hg, ?_⟩⟩
+  · subst h; simp at hex
+  · rcases hS.2.2.2.2.2.2.2.2.2.2 hg with h | h
+    · exact Or.inl h
+    · exact Or.inr (Or.inl h)
+
+/-- what follows the attempt's outcome in call mode, exception path -/
+theorem deliverCall_exn_spec (cfg : Cfg) (n : Nat) (u : View) (o : AOutcome) (rs : RState) (e : Exn)
+    (fb : ExhaustedFields) (hF : Fin cfg n o u) (hex : e.isExhausted = false) :
+    ⦃fun w => ⌜view cfg w = u⌝⦄ deliverCall (determineAction o rs n false) (some e) fb
+    ⦃post⟨fun r w => ⌜r = none ∧ Slept cfg n (view cfg w)⌝,
+          fun e' w => ⌜raisedBy isOp w.trace e = true → Exc cfg e' w⌝⟩⦄ := by
+  unfold determineAction
+  simp only [Fin] at hF
+  cases hdec : o.decision <;> simp only [hdec] at hF ⊢ <;> mvcgen [deliverCall]
+  all_goals (subst_vars)
+  case retry => exact ⟨trivial, hF⟩
+  case raise =>
+    split at hF <;> first | contradiction | exact fun hrb => exc_reraise cfg hF.1 (by simp_all) hrb hex
+  case scheduled =>
+    split at hF <;> first | contradiction | exact fun _ => exc_lib_exhausted cfg _ hF.1 (by simp [hF.2.1])
+  case aborted => split at hF <;> first | contradiction | exact fun _ => exc_lib_abort cfg hF.1
+
+
+/-- what follows the attempt's outcome in call mode, result path -/
+theorem deliverCall_res_spec (cfg : Cfg) (n : Nat) (u : View) (o : AOutcome) (rs : RState)
+    (fb : ExhaustedFields) (hF : Fin cfg n o u) :
+    ⦃fun w => ⌜view cfg w = u⌝⦄ deliverCall (determineAction o rs n true) none fb
+    ⦃post⟨fun r w => ⌜r = none ∧ Slept cfg n (view cfg w)⌝, fun e' w => ⌜Exc cfg e' w⌝⟩⦄ := by
+  unfold determineAction
+  simp only [Fin] at hF
+  cases hdec : o.decision <;> simp only [hdec] at hF ⊢ <;> mvcgen [deliverCall]
+  all_goals (subst_vars)
+  case retry => exact ⟨trivial, hF⟩
+  case raise =>
+    split at hF <;> first | contradiction | exact exc_lib_exhausted cfg _ hF.1 (by simp [hF.2.1])
+  case scheduled =>
+    split at hF <;> first | contradiction | exact exc_lib_exhausted cfg _ hF.1 (by simp [hF.2.1])
+  case aborted => split at hF <;> first | contradiction | exact exc_lib_abort cfg hF.1
+
+
+/-- a poll that answers False before any strategy was asked leaves the view alone -/
+theorem pollV_noStrat (cfg : Cfg) (u : View) (h1 : u.mon.strat = false) (h2 : u.mon.pollFalse = false) :
+    pollV cfg u = u := by
+  unfold pollV
+  split
+  · obtain ⟨m, _, _, _, _, _, _, _, _⟩ := u
+    cases m
+    simp_all
+  · rfl
+
+theorem fin_basic (cfg : Cfg) (n : Nat) (o : AOutcome) (v : View) (h : Fin cfg n o v) :
+    v.stopOk = true ∧ v.mon.bad = false ∧ GrantInv cfg v.mon ∧ v.flt = false := by
+  simp only [Fin] at h
+  cases hd : o.decision <;> simp only [hd] at h
+  case retry => simp only [Slept, GrantInv] at *; simp_all
+  all_goals (split at h <;> first | contradiction | (simp only [Stopped, GrantInv] at *; simp_all))
+
+/-- the log only grows during the retry loop, so "the operation raised `e`" is never forgotten -/
+theorem rbOp_ext (e : Exn) (w w' : World) (h : Ext loopK w w') (hr : raisedBy isOp w.trace e = true) :
+    raisedBy isOp w'.trace e = true := by
+  obtain ⟨δ, ht⟩ := h.grows
+  rw [ht, raisedBy_append, hr]
+  simp
+
+/-- a triple with an extra invariant that the program keeps (both exits) -/
+theorem triple_and_inv {α : Type} {x : M α} {P I : World → Prop} {Q : α → World → Prop}
+    {E : Exn → World → Prop}
+    (h1 : ⦃fun w => ⌜P w⌝⦄ x ⦃post⟨fun a w => ⌜Q a w⌝, fun e w => ⌜I w → E e w⌝⟩⦄)
+    (h2 : ⦃fun w => ⌜I w⌝⦄ x ⦃post⟨fun _ w => ⌜I w⌝, fun _ w => ⌜I w⌝⟩⦄) :
+    ⦃fun w => ⌜P w ∧ I w⌝⦄ x ⦃post⟨fun a w => ⌜Q a w⌝, fun e w => ⌜E e w⌝⟩⦄ := by
+  apply triple_of_run
+  intro w hw
+  have a1 := adequacy h1 w hw.1
+  have a2 := adequacy h2 w hw.2
+  split <;> simp_all
 
 end Redress.Props.C03
